@@ -313,7 +313,13 @@ class C01(Plugin):
 
     def evaluate(self, cases):
         lines = [self.impl_line(c) for c in cases]
-        outs = run_impl(self.harness_bin, lines, self.harness_args, jobs=self.impl_jobs, timeout=3000)
+        if 1 < len(lines) < 64:
+            # few cases (shrinking, neighbourhood search): one harness process per case, in parallel
+            import concurrent.futures as cf
+            with cf.ThreadPoolExecutor(max_workers=8) as ex:
+                outs = [o[0] for o in ex.map(lambda l: run_impl(self.harness_bin, [l], self.harness_args, timeout=3000), lines)]
+        else:
+            outs = run_impl(self.harness_bin, lines, self.harness_args, jobs=self.impl_jobs, timeout=3000)
         obss = [self.parse_obs(c, o) for c, o in zip(cases, outs)]
         terms = []
         for c, o in zip(cases, obss):
@@ -333,14 +339,34 @@ class C01(Plugin):
         raise NotImplementedError
 
     # ------------------------------------------------------------------ shrinking / reporting
+    def shrink(self, case, kind):
+        """greedy, bounded: a failing end-to-end case may hang, so every candidate is expensive; while shrinking (the failure is
+        already established with the generous limit) the harness waits 4 s instead of 30 s"""
+        cur = case
+        saved = self.harness_args
+        self.harness_args = ("--hang-ms", "4000")
+        try:
+            for _ in range(10):
+                cands = list(self.shrinks(cur))[:16]
+                if not cands:
+                    break
+                obss, mism, monf = self.evaluate(cands)
+                bad = monf if kind == "monitor" else mism
+                if not bad:
+                    break
+                cur = cands[min(bad)]
+        finally:
+            self.harness_args = saved
+        return cur
+
     def shrinks(self, c):
         reqs = c["reqs"]
         if len(reqs) > 1:
-            for i in range(len(reqs)):
-                yield {"cfg": c["cfg"], "reqs": reqs[:i] + reqs[i + 1:]}
             if len(reqs) > 3:
                 yield {"cfg": c["cfg"], "reqs": reqs[:len(reqs) // 2]}
                 yield {"cfg": c["cfg"], "reqs": reqs[len(reqs) // 2:]}
+            for i in range(len(reqs)):
+                yield {"cfg": c["cfg"], "reqs": reqs[:i] + reqs[i + 1:]}
         for i, r in enumerate(reqs):
             for k, v in (("cancel", -1), ("blen", 0), ("chunk", 0), ("hdelay", 0), ("sdelay", 0), ("readmode", 0), ("rchunk", 0),
                          ("byield", 0), ("ryield", 0), ("query", None)):
